@@ -315,6 +315,11 @@ package templ
 // whatever was registered when the inner loop started stays registered
 //@   let SS2 = v.ss @ loop2.entry
 //@   loop 2 invariant {C12} monotone(ghost(SS2), v.ss)
+//@   loop 3 invariant monotone(old(v.ss), v.ss) && isPrefix(old(sb.String()), sb.String())
+//@   let SS3 = v.ss @ loop3.entry
+//@   loop 3 invariant {C12} monotone(ghost(SS3), v.ss)
+// every pair of the slice seen so far that contributes a component class name has its rule registered
+//@   loop 3 invariant {C12} forall(j, 0, iter, implies(ccc[j].Value && dyntype(ccc[j].Key, ComponentCSSClass), regd(v, payload(ccc[j].Key, ComponentCSSClass).ID)))
 //@   assert before sb.WriteString#1: !has(v.ss, cat("class_", ccc.ID))
 //@   assert after v.addClass#1: has(v.ss, cat("class_", ccc.ID))
 
